@@ -267,8 +267,9 @@ reg("C12", p_kinds.c12, {"R-ORDER": 3, "R-TABLE": 3, "R-ERR": 60, "R-THREAD": 4}
 reg("C16", p_kinds.c16, {"R-WHO": 2, "R-ORDER": 8, "R-SIB": 1}, ["r_order"],
     rule="blocks of main not dominated by the thread::spawn that starts the copy reach no filesystem-mutating primitive, no "
          "CopyDriver::copy/tree_walker; every Invalid* rejection is constructed in that prefix; opts_check, expand_sources "
-         "and a loop over the expanded sources dominate the spawn; main's and the walker's target_base agree.",
-    technique="prefix-effect rule over the call graph + dominance + sibling comparison",
+         "and a loop over the expanded sources dominate the spawn; main's and the walker's target_base agree; with >= 2 sources "
+         "and is_dir(dest) == false assumed (excluded edges removed) the spawn is unreachable except through a failure signal.",
+    technique="prefix-effect rule over the call graph + dominance + must-fail reachability under assumed facts + sibling comparison",
     decided="no rejection can come after something was created/truncated/copied: validation of all sources precedes the "
             "start of the driver and touches nothing.",
     not_decided="completeness of the rejection classes for every argument position (value-dependent); clap's own parsing.")
